@@ -498,7 +498,7 @@ TV = "translation_validation"
 REGISTRY = {
     "C13": Spec("FFSM2.Props.C13", ["bitwidth", "contain", "typebits", "buffers"], container_run(["bitstream"])),
     "C14": Spec("FFSM2.Props.C14", ["halving", "find", "ids"], c14_run),
-    "C15": Spec("FFSM2.Props.C15", [], c15_run),
+    "C15": Spec("FFSM2.Props.C15", ["layers"], c15_run),
     "C20": Spec("FFSM2.Props.C20", ["contain", "buffers"], container_run(["bitarray", "static", "dynamic"])),
     "C10": Spec("FFSM2.Props.C10", ["config", "ids"], c10_run, extra=("FFSM2.Props.History",)),
     "C18": Spec("FFSM2.Props.C18", [], c18_run, level="other", explanation="Partial by nature: a theorem about a model cannot exhibit heap allocation or undefined behaviour of compiled C++. Executed here: both correspondence harnesses rebuilt with ASan+UBSan (-fno-sanitize-recover=all) and run on generated in-contract histories (payloads of alignment 1/8/16, plans at full capacity, n=1..7 quick / up to 64 thorough); an allocation probe that wraps malloc/calloc/realloc/free and operator new/delete around a scenario touching the whole API; thorough: nm -u symbol scan. The model-side index/range/alignment theorems are listed in DESIGN.md §9 C18."),
@@ -507,7 +507,7 @@ REGISTRY = {
     "C02": Spec("FFSM2.Props.C02", ["ids", "config"], machine_run("C02", ("random", "pingpong")), extra=("FFSM2.Props.History",)),
     "C03": Spec("FFSM2.Props.C03", ["ids", "config"], machine_run("C03", ("random", "pingpong")), extra=("FFSM2.Props.History",)),
     "C04": Spec("FFSM2.Props.C04", ["config"], machine_run("C04", ("random", "pingpong")), extra=("FFSM2.Props.History",)),
-    "C05": Spec("FFSM2.Props.C05", ["ids"], machine_run("C05"), extra=("FFSM2.Props.History",)),
+    "C05": Spec("FFSM2.Props.C05", ["ids", "phases"], machine_run("C05"), extra=("FFSM2.Props.History",)),
     "C06": Spec("FFSM2.Props.C06", ["ids"], machine_run("C06"), extra=("FFSM2.Props.History",)),
     "C07": Spec("FFSM2.Props.C07", ["ids"], machine_run("C07"), extra=("FFSM2.Props.History",)),
     "C08": Spec("FFSM2.Props.C08", ["ids", "config"], machine_run("C08", ("random", "planveto"))),
